@@ -605,6 +605,44 @@ def check(model, rep, tier):
             'convert() must run converted_call inside `with conversion_ctx:`',
             line=conv.node.lineno,
             witness='internal_convert(f, ctx) with an ENABLED ctx whose body raises')
+  # internal_convert: whenever it converts, it converts under the captured context
+  ic = model.func(API, 'internal_convert')
+  icp = ic.params(skip_self=False)
+  ctxp = icp[1] if len(icp) > 1 else 'ctx'
+  convs = [c for c in ast.walk(ic.node) if isinstance(c, ast.Call) and (
+      core.dotted(c.func) == 'convert' or (
+          core.dotted(c.func) in ('functools.partial', 'partial') and c.args and
+          core.dotted(c.args[0]) == 'convert'))]
+  missing = [core.norm(c)[:70] for c in convs if not any(
+      k.arg == 'conversion_ctx' and core.norm(k.value) == ctxp for k in c.keywords)]
+  rep.check(bool(convs) and not missing, 'CTX-STATUS', '%s:converts-under-captured-ctx' % ic.site,
+            'every wrapper internal_convert builds with convert() must re-enter '
+            'the context object that was captured (conversion_ctx=%s): without '
+            'it the function runs under whatever status is current at call '
+            'time' % ctxp, {'convert_calls_without_ctx': missing}, line=ic.node.lineno,
+            witness='an UNSPECIFIED context captured outside, the wrapper called '
+            'inside a do_not_convert region')
+  # FunctionScope.__enter__: nothing can fail after the status context was
+  # entered by hand (the with statement does not call __exit__ when __enter__
+  # raises, so the pushed context would stay on the thread's stack)
+  en = fs_cls.methods.get('__enter__')
+  late = []
+  if en is not None:
+    seen_enter = False
+    for n in core.preorder(en.node):
+      if isinstance(n, ast.Call) and isinstance(n.func, ast.Attribute) and \
+          n.func.attr == '__enter__':
+        seen_enter = True
+      elif seen_enter and isinstance(n, (ast.Assert, ast.Raise)):
+        late.append(core.norm(n)[:70])
+  rep.check(en is not None and not late, 'CTX-MANUAL',
+            '%s:nothing-fails-after-manual-enter' % (en.site if en else fs_cls.site),
+            'FunctionScope.__enter__ raises after it has entered the status '
+            'context by hand: `with` never calls __exit__ for a failed '
+            '__enter__, the ENABLED context stays pushed', {'statements': late},
+            line=en.node.lineno if en else None,
+            witness='a user-requested conversion with Feature.NAME_SCOPES, '
+            'caught by an ancestor')
   rep.unit('modules', len(model.modules))
 
   # ---------------------------------------------------------------- dependencies
